@@ -3,7 +3,7 @@ import r2
 
 META = {
     "level": "other",
-    "explanation": "For every protocol message that can influence an output bit (online and preprocessing labels) the receive must reach "
+    "explanation": "(R2.10) every equality comparison of a compound abort condition rejects on its own (`a != x && b != y` needs two wrong values); (R2.11) the conflicting-mask test inspects the table of the own masked inputs. For every protocol message that can influence an output bit (online and preprocessing labels) the receive must reach "
                    "the demanded fail-closed abort checks (R2.1, classified by condition ingredients: received bit+MAC, Delta, own key, "
                    "open_commitment, clmul correlation, label); a received bit is used only after its MAC check (R2.3); an absent "
                    "Option<(bit,MAC)> share is an error, never 'treated as 0' (R2.4); the loop carrying a MAC check cannot be shortened by "
